@@ -71,7 +71,7 @@ def ref(h5, lo=0, hi=None, fields=None, **kwargs):
     if fields is None:
         fields = pd.Index(["chrom", "start", "end"]).append(pd.Index(h5["bins"].keys())).drop_duplicates()
     out = get(h5["bins"], lo, hi, fields, **kwargs)
-    if "chrom" in fields:
+    if fields == "chrom" if isinstance(fields, str) else "chrom" in fields:
         convert_enum = kwargs.get("convert_enum", True)
         if isinstance(fields, str):
             col = out
